@@ -132,17 +132,24 @@ theorem signLoop_succ (priv e : Bytes) (fuel : Nat) (sc : Script) :
             if rInt = 0 then signLoop X priv e fuel sc' else
             let k := Bytes.toNatBE K
             let rkInt := rInt + k
-            let rkBytes := Bytes.ofNatMin rkInt
-            if rkBytes.length = 32 ∧ rkBytes = nBytes X then signLoop X priv e fuel sc' else
-            let dInt := Bytes.toNatBE priv
-            let d1Int := dInt + 1
-            let buf := Point.pad32 (Bytes.ofNatMin d1Int)
-            match Field.scalarSetBytes X.S buf with
-            | .ok d1 =>
-              let d1Inv := Field.invert X.S d1
-              let sInt := (rkInt * Field.toNat X.S d1Inv + (X.n - rInt % X.n)) % X.n
-              if sInt = 0 then signLoop X priv e fuel sc' else
-              .ok ((ensure32 rInt, ensure32 sInt), sc')
+            match fillBytes 33 rkInt with
+            | .ok rkBuf =>
+              match Utils.constantTimeCmp (some rkBuf) (some (nBytes33 X)) 33 with
+              | .ok c33 =>
+                if c33 = 0 then signLoop X priv e fuel sc' else
+                let dInt := Bytes.toNatBE priv
+                let d1Int := dInt + 1
+                match fillBytes 32 d1Int with
+                | .ok buf =>
+                  match Field.scalarSetBytes X.S buf with
+                  | .ok d1 =>
+                    let d1Inv := Field.invert X.S d1
+                    let sInt := (rkInt * Field.toNat X.S d1Inv + (X.n - rInt % X.n)) % X.n
+                    if sInt = 0 then signLoop X priv e fuel sc' else
+                    .ok ((ensure32 rInt, ensure32 sInt), sc')
+                  | _ => .panic
+                | _ => .panic
+              | _ => .panic
             | _ => .panic
           | .err => .err
           | .panic => .panic
@@ -171,14 +178,40 @@ theorem range_test (F : CurveFacts X) (K : Bytes) (hK : K.length = 32) :
       have : ¬ Spec.Utils.lexCmp K (nBytes X) = -1 := fun hc => by have := hiff.mp hc; omega
       omega
 
-/-- the code's test for r + k = n (compare the minimal encodings) -/
-theorem rk_test (F : CurveFacts X) (v : Nat) :
-    ((Bytes.ofNatMin v).length = 32 ∧ Bytes.ofNatMin v = nBytes X) ↔ v = Spec.SM2.n := by
-  rw [nBytes_eq F]
+theorem nBytes33_length (F : CurveFacts X) : (nBytes33 X).length = 33 := by
+  unfold nBytes33; rw [List.length_cons, nBytes_length F]
+
+theorem nBytes33_value (F : CurveFacts X) : Bytes.toNatBE (nBytes33 X) = Spec.SM2.n := by
+  unfold nBytes33; rw [UtilsCmp.toNatBE_cons, nBytes_value F]; simp
+
+/-- `nBytes33` is the 33-byte encoding of n -/
+theorem nBytes33_eq (F : CurveFacts X) : nBytes33 X = Bytes.ofNatBE 33 Spec.SM2.n := by
+  have := ofNatBE_toNatBE (nBytes33 X)
+  rw [nBytes33_length F, nBytes33_value F] at this
+  exact this.symm
+
+/-- `FillBytes` of a value that fits -/
+theorem fillBytes_fits (len v : Nat) (h : v < 256 ^ len) : fillBytes len v = .ok (Bytes.ofNatBE len v) := by
+  unfold fillBytes; rw [if_pos h]
+
+/-- the code's test for r + k = n: `ConstantTimeCmp` of the two 33-byte encodings is 0 exactly when
+    the values agree -/
+theorem rk_test (F : CurveFacts X) (v : Nat) (hv : v < 256 ^ 33) :
+    ∃ c, Utils.constantTimeCmp (some (Bytes.ofNatBE 33 v)) (some (nBytes33 X)) 33 = .ok c ∧
+      (c = 0 ↔ v = Spec.SM2.n) := by
+  have hl1 : (Bytes.ofNatBE 33 v).length = 33 := ofNatBE_length 33 v
+  have hl2 := nBytes33_length F
+  have hc := UtilsCmp.cmp_ok (Bytes.ofNatBE 33 v) (nBytes33 X) 33 (by omega) (by omega)
+  rw [List.take_of_length_le (by omega), List.take_of_length_le (by omega)] at hc
+  refine ⟨_, hc, ?_⟩
+  rw [UtilsCmp.lexCmp_eq_zero]
   constructor
-  · rintro ⟨_, h⟩; exact ofNatMin_injective h
+  · intro h
+    have := congrArg Bytes.toNatBE h
+    rw [toNatBE_ofNatBE 33 v hv, nBytes33_value F] at this
+    exact this
   · rintro rfl
-    exact ⟨by rw [← nBytes_eq F, nBytes_length F], rfl⟩
+    exact (nBytes33_eq F).symm
 
 /-- for 0 < k < n the point [k]G is finite -/
 theorem smul_G_some {k : Nat} (h0 : k ≠ 0) (hk : k < Spec.SM2.n) :
@@ -227,11 +260,22 @@ theorem signLoop_step (F : CurveFacts X) (priv e : Bytes)
     by_cases hr0 : (Bytes.toNatBE e + x1) % Spec.SM2.n = 0
     · rw [if_pos hr0, if_pos (Or.inl hr0)]
     · rw [if_neg hr0]
-      have hrk := rk_test F ((Bytes.toNatBE e + x1) % Spec.SM2.n + Bytes.toNatBE K)
+      have hrlt' : (Bytes.toNatBE e + x1) % Spec.SM2.n < Spec.SM2.n := Nat.mod_lt _ n_pos
+      have hfit : (Bytes.toNatBE e + x1) % Spec.SM2.n + Bytes.toNatBE K < 256 ^ 33 := by
+        have h32 := n_lt_pow
+        have : (256 : Nat) ^ 33 = 256 * 256 ^ 32 := by decide
+        omega
+      obtain ⟨c33, hc33, hrk⟩ := rk_test F ((Bytes.toNatBE e + x1) % Spec.SM2.n + Bytes.toNatBE K) hfit
+      rw [fillBytes_fits 33 _ hfit]
+      simp only []
+      rw [hc33]
+      simp only []
       by_cases hrkn : (Bytes.toNatBE e + x1) % Spec.SM2.n + Bytes.toNatBE K = Spec.SM2.n
       · rw [if_pos (hrk.mpr hrkn), if_pos (Or.inr hrkn)]
       · rw [if_neg (mt hrk.mp hrkn), if_neg (by rintro (h | h); exact hr0 h; exact hrkn h)]
         obtain ⟨d1, hd1e, hinv⟩ := F.scalarInv (Bytes.toNatBE priv + 1) (by omega) (by omega)
+        rw [fillBytes_fits 32 (Bytes.toNatBE priv + 1) (Nat.lt_trans (by omega) n_lt_pow)]
+        simp only []
         rw [hd1e]
         simp only []
         rw [hinv, s_code_eq_spec _ _ _ (by omega)]
